@@ -127,6 +127,13 @@ class World:
         self._real_threading = M.threading if not isinstance(M.threading, _ThreadingShim) else M.threading._real
         M.threading = _ThreadingShim(self._real_threading, self, s)
         self.coarse = []             # tid of each outermost critical section, in order
+        # locks that live in the module (shared by all stores) are put under the scheduler's control as well
+        self._module_locks = {}
+        for name, v in list(vars(M).items()):
+            if type(v).__name__ in ("lock", "RLock"):
+                self._module_locks[name] = v
+                setattr(M, name, RecLock(s, type(v).__name__ == "RLock", f"module.{name}", self, record=False,
+                                         group="module"))
         for i, st in enumerate(self.stores):
             # every lock object the store owns is put under the scheduler's control, not only `_lock`
             for attr, v in list(vars(st).items()):
@@ -148,8 +155,13 @@ class World:
                     self.results[tid].append(ret_code(r, exc))
             self.fns.append(run)
 
-    def outcome(self):
+    def restore(self):
         self.M.threading = self._real_threading
+        for name, v in self._module_locks.items():
+            setattr(self.M, name, v)
+
+    def outcome(self):
+        self.restore()
         snaps = [C4._snap(st) for st in self.stores]
         return {"results": [list(r) for r in self.results], "stores": snaps, "coarse": list(self.coarse)}
 
@@ -162,13 +174,25 @@ def run_fine(case, prefix):
         holder["w"] = w
         return w.fns, w.outcome
 
+    import contextlib
+    import io
+    loud = any(c.get("silent") is False for c in case["stores"])
     try:
-        s, out = sched.run_schedule(make_world, prefix, TARGET)
+        with (contextlib.redirect_stdout(io.StringIO()) if loud else contextlib.nullcontext()):
+            s, out = sched.run_schedule(make_world, prefix, TARGET)
     finally:
         w = holder.get("w")
         if w is not None:
-            w.M.threading = w._real_threading
+            w.restore()
     return s, out
+
+
+def _quiet(case):
+    """stdout captured while stores that report on stdout are at work"""
+    import contextlib
+    import io
+    loud = any(c.get("silent") is False for c in case["stores"])
+    return contextlib.redirect_stdout(io.StringIO()) if loud else contextlib.nullcontext()
 
 
 def _jitter_run(case, seed):
@@ -293,6 +317,8 @@ class C05(Check):
                     prog.append(["consume", i, 5, "ATP", False, 0])
             threads.append(prog)
         if rng.random() < 0.25:
+            stores = [dict(c, silent=False) for c in stores]      # the constructor's default: every call reports on stdout
+        if rng.random() < 0.25:
             how = rng.choice(["copy", "deepcopy", "pickle"])
             stores = [dict(c, prov=how) if rng.random() < 0.8 else c for c in stores]
         return {"stores": stores, "threads": threads}
@@ -341,6 +367,13 @@ class C05(Check):
         # spend with NADH top-up vs convert
         {"stores": [{"budget": 5, "gtp": 0, "nadh": 3, "max_debt": 5, "rate": 0.5}],
          "threads": [[["consume", 0, 8, "ATP", True, 0]], [["convert", 0, 3], ["regen", 0, 5, "ATP"]]]},
+        # stores that report on stdout (the constructor's default): a transfer racing with calls that print under the lock
+        {"stores": [{"budget": 100, "gtp": 0, "nadh": 0, "max_debt": 0, "rate": 0.5, "silent": False},
+                    {"budget": 50, "gtp": 0, "nadh": 0, "max_debt": 0, "rate": 0.5, "silent": False}],
+         "threads": [[["transfer", 0, 1, 10, "ATP"]], [["consume", 0, 70, "ATP", False, 0]]]},
+        {"stores": [{"budget": 10, "gtp": 0, "nadh": 5, "max_debt": 5, "rate": 0.5, "silent": False},
+                    {"budget": 5, "gtp": 0, "nadh": 0, "max_debt": 0, "rate": 0.5, "silent": False}],
+         "threads": [[["transfer", 0, 1, 3, "ATP"], ["convert", 0, 2]], [["consume", 0, 12, "ATP", True, 10], ["transfer", 1, 0, 2, "ATP"]]]},
         # the shared store is a copy / deep copy / pickle round trip of a fresh one, and its first two calls overlap
         {"stores": [{"budget": 10, "gtp": 0, "nadh": 0, "max_debt": 0, "rate": 0.5, "prov": "copy"}],
          "threads": [[["consume", 0, 6, "ATP", False, 0]], [["consume", 0, 6, "ATP", False, 0]]]},
@@ -519,6 +552,7 @@ class C05(Check):
                         yield [t] + rest
 
         for order in merges([0] * len(progs)):
+          with _quiet(case):
             stores = C4._mk_stores(M, case["stores"])
             pos = [0] * len(progs)
             results = [[] for _ in progs]
@@ -579,6 +613,40 @@ class C05(Check):
                     w.stores[0].on_state_change = listener
                 return w.fns, w.outcome
 
+            # what the same calls give one after the other, in every order, with the same failing listener / argument
+            ref = set()
+
+            def orders(idx):
+                if all(idx[t] == len(threads[t]) for t in range(len(threads))):
+                    yield []
+                    return
+                for t in range(len(threads)):
+                    if idx[t] < len(threads[t]):
+                        idx2 = list(idx)
+                        idx2[t] += 1
+                        for rest in orders(idx2):
+                            yield [t] + rest
+            for order in orders([0] * len(threads)):
+                stores = C4._mk_stores(M, case["stores"])
+                if kind == "listener":
+                    fired = []
+
+                    def listener(state, fired=fired):
+                        if not fired:
+                            fired.append(1)
+                            raise RuntimeError("listener failed")
+                    stores[0].on_state_change = listener
+                pos = [0] * len(threads)
+                results = [[] for _ in threads]
+                for t in order:
+                    op = threads[t][pos[t]]
+                    pos[t] += 1
+                    try:
+                        r, e = C4._apply(M, stores, tuple(op)), None
+                    except Exception as ex:  # noqa
+                        r, e = None, ex
+                    results[t].append(ret_code(r, e))
+                ref.add(json.dumps([results, [C4._row(C4._snap(st))[:4] for st in stores]]))
             stack, seen = [[]], set()
             while stack and len(seen) < (40 if self.tier == "quick" else 300):
                 prefix = stack.pop()
@@ -593,6 +661,12 @@ class C05(Check):
                     self.violations.append(Violation(
                         "C05/deadlock", f"{what}: after a call raised inside its critical section, threads {unfinished} "
                         f"never returned (store lock leaked); schedule {chosen}",
+                        case={"stores": [cfg, cfg], "threads": threads, "schedule": chosen, "scenario": what}))
+                    break
+                if not s.errors and self._key(out) not in ref:
+                    self.violations.append(Violation(
+                        "C05/not-serialisable", f"{what}: the outcome {self._key(out)} is reachable under no sequential order of the "
+                        f"same calls (with the same failing callback / argument); schedule {chosen}",
                         case={"stores": [cfg, cfg], "threads": threads, "schedule": chosen, "scenario": what}))
                     break
                 for i in range(len(s.trace) - 1, len(prefix) - 1, -1):
@@ -622,7 +696,8 @@ class C05(Check):
         n_j = 0
         for pi, prog in enumerate(progs):
             for k in range(per):
-                out, hung = _jitter_run(prog, f"C05:jitter:{self.seed}:{pi}:{k}")
+                with _quiet(prog):
+                    out, hung = _jitter_run(prog, f"C05:jitter:{self.seed}:{pi}:{k}")
                 n_j += 1
                 case = {"stores": prog["stores"], "threads": prog["threads"], "schedule": [], "jitter_seed": f"{self.seed}:{pi}:{k}"}
                 v = self.monitor(case, None, {"out": out, "deadlock": hung, "errors": {}, "fine": "real threads, line jitter"})
